@@ -15,9 +15,11 @@ fn fail(hist: &[String], rule: &str, detail: String) {
 }
 
 macro_rules! family {
-    ($modname:ident, $Src:ty, $A:ty, $AE:ty, $B:ty, $texts:expr, $to_src:expr) => {
+    ($modname:ident, $Src:ty, $A:ty, $AE:ty, $B:ty, $texts:expr, $to_src:expr, $is_str:expr) => {
         pub mod $modname {
             use super::*;
+
+            const IS_STR: bool = $is_str;
 
             enum Cur<'s> {
                 A(Lexer<'s, $A>),
@@ -115,19 +117,25 @@ macro_rules! family {
                             }
                             3 => {
                                 // in-range bump to a valid boundary
+                                // valid targets by the model (std's char boundaries / len), not by logos
                                 let mut cands = vec![];
                                 for n in 0..=(len - end).min(6) {
                                     let e = end + n;
-                                    let ok = with!(&cur, lex => logos::Source::is_boundary(lex.source(), e));
-                                    if ok {
+                                    if model_boundary(bytes, e, IS_STR) {
                                         cands.push(n);
                                     }
                                 }
-                                let n = cands[rng.below(cands.len())];
+                                // prefer the end of the source now and then
+                                let n = if rng.below(4) == 0 && model_boundary(bytes, len, IS_STR) && len - end <= 64 { len - end } else { cands[rng.below(cands.len())] };
                                 hist.push(format!("bump({n})"));
                                 stats[1] += 1;
-                                with!(&mut cur, lex => lex.bump(n));
-                                end += n;
+                                let r = std::panic::catch_unwind(std::panic::AssertUnwindSafe(|| with!(&mut cur, lex => lex.bump(n))));
+                                if r.is_err() {
+                                    fail(&hist, "in-range-bump-panicked", format!("bump({n}) from end {end} to {} (source length {len}) panicked", end + n));
+                                    broken = true;
+                                } else {
+                                    end += n;
+                                }
                             }
                             4 => {
                                 // clone, advance the clone, the original must not notice and later produce the same items
@@ -247,6 +255,13 @@ macro_rules! family {
     };
 }
 
+fn model_boundary(bytes: &[u8], e: usize, is_str: bool) -> bool {
+    if e > bytes.len() {
+        return false;
+    }
+    !is_str || e == bytes.len() || (bytes[e] & 0xC0) != 0x80
+}
+
 fn as_str(b: &[u8]) -> &str {
     std::str::from_utf8(b).unwrap()
 }
@@ -257,11 +272,11 @@ fn as_bytes(b: &[u8]) -> &[u8] {
 family!(strfam, str, StrA<'s>, StrA<'_>, StrB, vec![
     "hello world 12 + 3".as_bytes(), "a...b. \"q\" zz".as_bytes(), "hé €😀 λ 1+1".as_bytes(), "".as_bytes(), "   ".as_bytes(), "@@ x @".as_bytes(),
     "hello".as_bytes(), "ÿ9.ÿ".as_bytes(), "\"open 12".as_bytes(), "x".as_bytes(), "12345678 abcdefgh +++".as_bytes(),
-], as_str);
+], as_str, true);
 
 family!(bytesfam, [u8], BytesA<'s>, BytesA<'_>, BytesB, vec![
     &b"hello world 12 + 3"[..], &b"a...b. zz"[..], &b"h\xC3\xA9 \xFF\xFE 1+1"[..], &b""[..], &b"   "[..], &b"@@ x @"[..], &b"hello"[..], &b"\x80\x819.\xFF"[..], &b"x"[..],
-], as_bytes);
+], as_bytes, false);
 
 pub fn sub_hist(seed: u64, count: usize, small: bool) {
     let count = if small { count.min(60) } else { count };
